@@ -2,7 +2,8 @@
 import ast
 
 from .astutil import unparse, dotted
-from .bitcells import (Unsupported, Param, View, Bits, CU32, ModVal, Maybe, TableVal, Opaque, FuncValue, TOP, PCell, INF)
+from .bitcells import (Unsupported, Param, View, Bits, CU32, ModVal, Maybe, TableVal, Opaque, FuncValue, TOP, PCell, INF,
+                       Record, RecordType)
 from .bitexpr import CONSTS, STR_METHODS, is_pow2, norm_const
 
 MAX_DEPTH = 12
@@ -47,6 +48,8 @@ class CallMixin:
             if len(node.args) != 1 or node.keywords:
                 raise Unsupported('c_uint32 call form {}'.format(unparse(node)))
             return CU32(self.ev(node.args[0], st))
+        if fn in ('namedtuple', 'collections.namedtuple') and not (isinstance(f, ast.Name) and f.id in st.env):
+            return self.namedtuple_call(node, st)
         if isinstance(f, ast.Name) and not self.shadowed(f.id, st):
             return self.builtin(f.id, node, st)
         if isinstance(f, ast.Attribute):
@@ -59,12 +62,44 @@ class CallMixin:
                 return None
             return self.method(base, f.attr, node, st)
         callee = self.ev(f, st)
+        if isinstance(callee, RecordType):
+            args, kwargs = self.eval_args(node, st)
+            if st.dead:
+                return None
+            if len(args) > len(callee.fields):
+                raise Unsupported('too many arguments for record {}'.format(callee.name))
+            vals = dict(zip(callee.fields, args))
+            for k, v in kwargs.items():
+                if k not in callee.fields or k in vals:
+                    raise Unsupported('bad keyword {} for record {}'.format(k, callee.name))
+                vals[k] = v
+            for fld in callee.fields:
+                if fld not in vals:
+                    if fld not in callee.defaults:
+                        raise Unsupported('record {} misses field {}'.format(callee.name, fld))
+                    vals[fld] = callee.defaults[fld]
+            return Record(callee, vals)
         if isinstance(callee, FuncValue):
             args, kwargs = self.eval_args(node, st)
             if st.dead:
                 return None
             return self.run_function(callee, args, kwargs, st)
         raise Unsupported('call of {} ({})'.format(fn or type(callee).__name__, unparse(node)))
+
+    def namedtuple_call(self, node, st):
+        args, kwargs = self.eval_args(node, st)
+        if len(args) != 2 or not isinstance(args[0], str) or set(kwargs) - {'defaults'}:
+            raise Unsupported('namedtuple call form {}'.format(unparse(node)))
+        names = args[1].replace(',', ' ').split() if isinstance(args[1], str) else args[1]
+        if not isinstance(names, list) or not all(isinstance(x, str) and x.isidentifier() for x in names):
+            raise Unsupported('namedtuple field names {}'.format(unparse(node)))
+        defaults = {}
+        if 'defaults' in kwargs:
+            dv = kwargs['defaults']
+            if not isinstance(dv, list) or len(dv) > len(names) or not all(self.is_static(x) for x in dv):
+                raise Unsupported('namedtuple defaults {}'.format(unparse(node)))
+            defaults = dict(zip(names[len(names) - len(dv):], dv))
+        return RecordType(args[0], names, defaults, True)
 
     # -- builtins ----------------------------------------------------------------------------------------------
     def builtin(self, name, node, st):
@@ -113,12 +148,13 @@ class CallMixin:
             if isinstance(args[0], list):
                 return list(args[0])
         if name == 'range' and args and all(isinstance(x, int) and not isinstance(x, bool) for x in args) and not kwargs:
-            r = range(*args)
-            if len(r) > 4096:
-                raise Unsupported('range too long to unroll: {}'.format(unparse(node)))
-            return list(r)
+            if len(args) == 3 and args[2] == 0:
+                raise Unsupported('range with step 0')
+            return range(*args)
         if name == 'dict' and not args:
             return dict(kwargs)
+        if name in ('hex', 'bin', 'oct', 'repr', 'format', 'ascii'):
+            return Opaque(name + '()')
         if name == 'str' and len(args) == 1:
             return str(args[0]) if isinstance(args[0], (int, str)) and not isinstance(args[0], bool) else Opaque('str()')
         if name in ('enumerate', 'zip', 'reversed') and not kwargs and all(isinstance(a, list) for a in args) and args:
@@ -323,8 +359,11 @@ class CallMixin:
         fdef = fv.fdef
         if isinstance(fdef, ast.Lambda):
             raise Unsupported('call of a lambda')
-        if fdef.decorator_list:
-            raise Unsupported('call of decorated function {}'.format(fdef.name))
+        for deco in fdef.decorator_list:
+            # memoisation of a function of its arguments does not change what it returns
+            d = dotted(deco.func if isinstance(deco, ast.Call) else deco)
+            if d not in ('lru_cache', 'functools.lru_cache', 'cache', 'functools.cache'):
+                raise Unsupported('call of decorated function {}'.format(fdef.name))
         if len(self.fn_stack) > MAX_DEPTH or sum(1 for f in self.def_stack if f is fdef) > 2:
             raise Unsupported('inlining depth exceeded at {}'.format(fdef.name))
         a = fdef.args
